@@ -388,6 +388,9 @@ func driveC14(o opts) error {
 			return err
 		}
 	}
+	if err := c14Custom(o, g, w); err != nil {
+		return err
+	}
 	return w.Flush()
 }
 
